@@ -1035,6 +1035,13 @@ def as_map(v):
             return None
         if tg is None or tg[0] != "bv":
             return None
+        if it[0] == "call" and it[1] == ("global", "zip") and not it[3] and it[2]:
+            # `for pair in zip(A, B)` with the pair kept whole: the same single map, the variable standing for the tuple of bodies
+            maps = [as_map(a) for a in it[2]]
+            if all(m is not None and not m[3] for m in maps) and len({m[2] for m in maps}) == 1:
+                e = ("bv", "_z", next(_fresh))
+                sub = {tg: ("tuple", tuple(simp(subst(m[1], {m[0]: e})) for m in maps))}
+                return (e, simp(subst(v[2], sub)), maps[0][2], tuple(simp(subst(c, sub)) for c in ifs))
         inner = as_map(it) if it[0] in ("comp", "copy") else None
         if inner is None:
             return (tg, v[2], it, tuple(ifs))
